@@ -385,9 +385,16 @@ struct Explorer {
       ++violations; ++crashes;
       std::string pth = write_replay(p, ops, nullptr, "abnormal termination (sanitizer report, assertion, crash or hang) while executing this history; status " + std::to_string(sig_or_code), "crash-" + std::to_string(++replay_seq));
       replay_files.push_back(pth);
-    } else if (fails == 1) {
-      fprintf(stderr, "HARNESS: non-reproducible abnormal termination\n"); ++selfcheck_fail;
-    } else { fprintf(stderr, "HARNESS: worker died but the history in flight replays cleanly\n"); ++selfcheck_fail; }
+    } else {
+      // The worker died in this history, yet the history alone (fresh process) runs cleanly at least once. Every history builds
+      // fresh objects and dismantles them, so the only thing a worker carries from one history to the next is the library's own
+      // global state (current tracer, reporter, ...): something a previous history left there made this one die (e.g. a
+      // destroyed tracer that is still registered). On the reference tree no worker ever dies; this is reported, not ignored.
+      ++violations; ++crashes;
+      std::string pth = write_replay(p, ops, nullptr, "abnormal termination (status " + std::to_string(sig_or_code) + ") of a worker while executing this history AFTER other histories in the same process; "
+                                     "alone it replays cleanly " + std::string(fails == 1 ? "once out of twice" : "twice") + ": state left behind in the library's globals by an earlier history (objects of a history are all destroyed at its end)", "crash-" + std::to_string(++replay_seq));
+      replay_files.push_back(pth);
+    }
   }
 
   void run_plan(const Plan& p) {
